@@ -13,6 +13,22 @@ def run(prop, reg, tier, seed, workdir, replay, C):
         return {"evaluations": 0, "distinct_nontrivial": 0, "rule": "no harness for this property", "samples": []}
     raise SystemExit("unknown engine " + eng)
 
+CONN_CONFIG = """[minter]
+chain = "testnet"
+multisig_addr = "Mx1111111111111111111111111111111111111111"
+private_key = ""
+api_addr = "http://127.0.0.1:1/"
+start_block = 0
+start_event_nonce = 1
+start_batch_nonce = 1
+start_valset_nonce = 1
+
+[cosmos]
+mnemonic = ""
+grpc_addr = "127.0.0.1:1"
+rpc_addr = "http://127.0.0.1:1"
+"""
+
 def merge(total, r):
     if r.get("error"):
         total["error"] = r["error"]; return
@@ -60,6 +76,8 @@ def run_hub_engine(prop, reg, tier, seed, workdir, replay, C):
 def conn_run(C, args, outdir):
     import subprocess
     os.makedirs(outdir, exist_ok=True)
+    # the connector's packages read config.toml from the working directory when they are initialised
+    open(os.path.join(outdir, "config.toml"), "w").write(CONN_CONFIG)
     rc, o = C.sh([os.path.join(C.BUILD, "connharness")] + args + ["--out", outdir], cwd=outdir, timeout=1800)
     if rc != 0:
         return {"error": "connharness failed: " + o[-2000:]}
@@ -107,7 +125,7 @@ def run_conn_engine(prop, reg, tier, seed, workdir, replay, C):
     total["distinct_nontrivial"] = max(len(st), min(total["histories"], st.get("resync:commits", 0)))
     total["rule"] = ("Minter block histories (several bridge events per block, invalid commands interleaved, batches, multisig edits), "
                      "restart positions (every commit of a scan can be the persisted cursor) and acknowledged nonces generated from VERIF_SEED; "
-                     "the real GetLatestMinterBlockAndNonce runs against a scripted node with every Commit captured; compared with the Lean model; "
+                     "the real GetLatestMinterBlockAndNonce and the real relayMinterEvents (the connector's main.go compiled into the harness) run against a scripted node with every Commit and every claim captured; compared with the Lean model; "
                      "distinct_nontrivial = distinct (op, outcome) classes (at least the number of histories with a committing scan)")
     return total
 
